@@ -20,53 +20,77 @@ THEOREMS = [
     "BeyondVerif.C08.iter_no_stop",
     "BeyondVerif.C08.iter_incoherent",
     "BeyondVerif.C08.iter_zero_step",
-    "BeyondVerif.C08.iter_dates_list_partial",
-    "BeyondVerif.C08.ephem_iter_dates_partial",
+    "BeyondVerif.C08.iter_dates_list",
+    "BeyondVerif.C08.ephem_iter_dates_forward",
+    "BeyondVerif.C08.ephem_iter_dates_backward",
     "BeyondVerif.C08.ephem_iter_own",
-    "BeyondVerif.C08.ephem_iter_dates_list_partial",
-    "BeyondVerif.C08.numerical_iter_nostep",
-    "BeyondVerif.C08.numerical_iter_dates_partial",
-    "BeyondVerif.C08.numerical_iter_step_partial",
+    "BeyondVerif.C08.ephem_iter_own_backward",
+    "BeyondVerif.C08.ephem_iter_dates_list",
+    "BeyondVerif.C08.numIter_eq_numCore",
+    "BeyondVerif.C08.numerical_iter_dates_forward",
+    "BeyondVerif.C08.numerical_iter_dates_backward",
+    "BeyondVerif.C08.numerical_iter_dates_list",
     "BeyondVerif.C08.boundVal_bind",
     "BeyondVerif.C08.exec_inv",
     "BeyondVerif.C08.call_result_pure",
-    "BeyondVerif.C08.propagate_pure",
+    "BeyondVerif.C08.propagate_pure_partial",
+    "BeyondVerif.C08.propagate_pure_not_sgp4",
     "BeyondVerif.C08.iter_eq_map_propagate",
     "BeyondVerif.C08.ident_table_matches",
     "BeyondVerif.C08.order_matches",
-    "BeyondVerif.C08W.numerical_beyond_stop",
-    "BeyondVerif.C08W.numerical_beyond_stop_step",
-    "BeyondVerif.C08W.numerical_short_span_raises",
-    "BeyondVerif.C08W.numerical_backward_raises",
-    "BeyondVerif.C08W.numerical_dates_list_raises",
-    "BeyondVerif.C08W.ephem_backward_yields_nothing",
-    "BeyondVerif.C08W.ephem_empty_list_yields_all",
-    "BeyondVerif.C08W.analytical_empty_list_raises",
-    "BeyondVerif.C08W.sgp4_stale_after_modify",
+    "BeyondVerif.C08W.numerical_nothing_beyond_stop",
+    "BeyondVerif.C08W.numerical_nothing_beyond_stop_step",
+    "BeyondVerif.C08W.numerical_short_span_resampled",
+    "BeyondVerif.C08W.numerical_short_span_listening",
+    "BeyondVerif.C08W.numerical_backward",
+    "BeyondVerif.C08W.numerical_backward_nostep",
+    "BeyondVerif.C08W.numerical_backward_negstep",
+    "BeyondVerif.C08W.numerical_dates_list",
+    "BeyondVerif.C08W.numerical_dates_list_unordered",
+    "BeyondVerif.C08W.numerical_dates_list_empty",
+    "BeyondVerif.C08W.ephem_backward",
+    "BeyondVerif.C08W.ephem_backward_posstep",
+    "BeyondVerif.C08W.ephem_empty_list_yields_nothing",
+    "BeyondVerif.C08W.analytical_empty_list_yields_nothing",
+    "BeyondVerif.C08W.sgp4_follows_modify",
+    "BeyondVerif.C08W.sgp4_stale_after_drag_change",
+    "BeyondVerif.C08W.sgp4_drag_change_seen_after_element_change",
     "BeyondVerif.C08W.kepler_follows_modify",
 ]
 LEVEL_TEXT = ("Lean theorems over an integer-microsecond model of Date.range, AnalyticalPropagator.iter, NumericalPropagator.iter + KeplerNum._iter, "
-              "Ephem.iter and of the binding / listener state: for all epochs, starts, stops, steps (any sign, dividing the span or not) the analytical "
-              "iterators yield exactly start + k*step, k = 0..floor(|stop-start|/|step|), in order, none beyond stop, forward and backward "
-              "(iter_dates_forward/backward, by induction over the loop); error kinds of the argument handling; explicit lists; Ephem and KeplerNum under "
-              "the hypotheses their control flow needs (_partial), with kernel-decided counter-witnesses for the excluded cases; for every history of "
-              "propagate/iter calls on shared propagator and listener objects the result of the next call equals that on fresh objects (propagate_pure, "
-              "by an invariant over histories). Model tied to the code by an exact differential correspondence (dates, error kinds, binding trace, "
+              "Ephem.iter / _iter_backward and of the binding / listener / Sgp4-record state. For all three families (analytical: SGP4, Kepler, J2, None, CW; "
+              "numerical: KeplerNum; ephemeris), for all epochs, starts, stops (date or timedelta), steps of either sign (dividing the span or not; absent = "
+              "integration step for KeplerNum), with or without listeners: the iterator yields exactly start + k*step, k = 0..floor(|stop-start|/|step|), in order, "
+              "none beyond stop, forward (step > 0) and backward (step flipped or negative) - iter_dates_forward/backward, numerical_iter_dates_forward/backward "
+              "(any span however short, stop on or off the integration grid), ephem_iter_dates_forward/backward (start, stop inside the tabulated span), by "
+              "induction over the loops; explicit lists are yielded as given, the empty list yields nothing (iter_dates_list, numerical_iter_dates_list, "
+              "ephem_iter_dates_list); error kinds of the argument handling; for EVERY history of propagate/iter calls and in-place modifications of the orbits on "
+              "shared propagator and listener objects the result of the next call equals that on fresh objects holding the current orbit values: at full strength "
+              "for Kepler, J2, None, KeplerNum, CW, Ephem (propagate_pure_not_sgp4), and for Sgp4 under the hypothesis that what Sgp4 compares of its orbit "
+              "(coordinates, date, form, frame) determines the orbit (propagate_pure_partial: in-place changes of the coordinates are covered since c604b3e; "
+              "an in-place change of a drag term bstar/ndot/ndotdot is NOT - kernel-decided counter-witness, open finding). Kernel-decided regression witnesses "
+              "on the inputs of the 8 repaired findings. Model tied to the code by an exact differential correspondence (dates, error kinds, binding trace, whose trajectory, events, "
               "Listener.prev) on every run and by constants / setter kinds regenerated from the source.")
 LEVEL_NOTE = ("model hand-written (control flow), tied by exact correspondence; dates are exact integers in the model while Date carries float seconds "
               "(inputs on a 0.125 s grid where the float arithmetic is exact; date arithmetic itself is C03's); yielded STATES are abstract in the model "
-              "(f(orbit value, date)) and compared on the real API by the oracle only; 8 clauses are false of the current code (known findings); "
+              "(f(orbit value, date)) and compared on the real API by the oracle only; the numerical theorems take as a parameter any number m of integration steps "
+              "that reach stop and fill the interpolation order and assume fuel > m (fuel bounds the model's loops only; the code has no bound); 8 findings fixed in "
+              "/repo are kept as regression families; 1 clause is false of the current code (history independence under Sgp4 after orb.bstar = x: open finding "
+              "C08-sgp4-stale-after-drag-term-change, proposed_fixes/C08-h-sgp4-drag-terms.diff); "
               "Lean kernel + propext/Classical.choice/Quot.sound")
-TECHNIQUE = "Lean 4 proof by induction over the iteration loops and over call histories + kernel decide counter-witnesses; exact model/implementation correspondence"
+TECHNIQUE = "Lean 4 proof by induction over the iteration loops and over call histories + kernel decide regression witnesses; exact model/implementation correspondence"
 TRUSTED = [
     "harness/props/C08.py extract: reads Ephem.DEFAULT_ORDER and, per propagator class, whether the `orbit` setter stores the object or a copy (AST) -> Generated/IterConst.lean",
-    "correspondence: real Orbit / propagator / Ephem / Listener objects vs the compiled Lean model on identical keyword arguments and call histories; exact comparison of yielded dates, end kind (done / ValueError / AttributeError / cap), bound orbit, number of re-bindings, Listener.prev",
+    "correspondence: real Orbit / propagator / Ephem / Listener objects vs the compiled Lean model on identical keyword arguments and call histories; exact comparison of yielded dates, end kind (done / ValueError / AttributeError / cap), bound orbit, number of re-bindings, whose trajectory the states lie on, number of events, Listener.prev",
     "CPython generator semantics (a generator body does not run before the first next()) are modelled by the `consume = 0` case",
 ]
 ASSUMPTIONS = [
-    "Model/Iter.lean is hand-written; it is tied to base.py, keplernum.py, ephem.py, orbit.py, date.py, listeners.py by the exact correspondence run only",
+    "Model/Iter.lean is hand-written; it is tied to base.py, keplernum.py, sgp4.py, ephem.py, orbit.py, date.py, listeners.py by the exact correspondence run only",
     "dates are exact integers (microseconds) in the model; the implementation adds float seconds - exact on the generated 0.125 s grid, not in general (C03)",
-    "KeplerNum with a fixed-step method (rk4/euler) and self.step > 0: real_step == self.step; adaptive methods change the internal grid and are not modelled",
+    "KeplerNum with a fixed-step method (rk4/euler) and self.step > 0: real_step == self.step; adaptive methods change the internal grid and are not modelled; `real_steps=True` is not modelled",
+    "Ephem(points) sorts by date: modelled as the reversal of the (descending) list a backward integration produces",
+    "the positioning of KeplerNum at `start` (extrapolation / retropolation from the epoch padded to DEFAULT_ORDER points, one interpolation) always succeeds and only its date enters the model",
+    "Sgp4 compares (tobytes, date, form, frame) of the bound orbit with what its record was computed from: modelled as a relation World.sameState on abstract orbit values (in the correspondence: same object and same number of element changes, whatever the number of drag-term changes)",
     "a call is atomic: a suspended generator is either dropped or never resumed after another call on the same objects",
     "in-place modifications of an orbit by the user happen between calls (modelled as the call `modify`), not while an iterator is suspended",
 ]
@@ -74,18 +98,24 @@ NOT_COVERED = [
     "receiver_unchanged: in the model calls have no write access to the orbit store (a modelling decision, not a theorem); on the real code it is checked by the oracle's before/after snapshots (array bytes, date, form, frame, maneuvers, propagator identity) only",
     "equality of each yielded state with a direct propagation is by construction in the model (states are f(value, date)); on the real code: oracle, bitwise for analytical propagators and Ephem, 1 m / 1 mm/s for KeplerNum (two different RK4 paths)",
     "resuming a suspended generator after another orbit was bound to the same shared propagator follows the LAST bound orbit (AnalyticalPropagator.iter reads self.orbit lazily) - outside the atomic-call assumption",
-    "a failed Sgp4 binding (Tle.from_orbit raises) leaves propagator._orbit set with the previous satellite record: the next call on that orbit skips the re-binding (observed once with an invalid orbit; not part of the quantifier; repaired by proposed fix C08-g as a side effect)",
-    "event search (_bisect) is C10's; listeners enter here only through clear_listeners / Listener.prev",
+    "a failing Sgp4 binding (Tle.from_orbit raises): since c604b3e the setter binds only after success; binding failures are not in the model",
+    "inputs outside the quantifier, modelled and in the correspondence but without theorem: a forward range with a negative step (analytical: ValueError at once, iter_incoherent; Ephem and KeplerNum: dates until the span is left, then ValueError); step = 0 (analytical: ValueError; Ephem / KeplerNum forward: never terminates, both sides stop at the cap; KeplerNum backward: ValueError); KeplerNum.iter(start=None): AttributeError",
+    "event search (_bisect) is C10's; listeners enter here only through clear_listeners / Listener.prev / the number of events found per call",
 ]
-OPEN = ["ownPts (Ephem.iter without step) is proved equal to the code's loop by definition only; its characterisation as 'the tabulated dates within [start, stop]' for sorted points is not proved",
-        "Dates given as a DateRange object: modelled and in the correspondence, no theorem"]
+OPEN = ["propagate_pure for Sgp4 is _partial: it assumes Faithful (Sgp4._state determines the orbit value). The excluded case - a drag term (bstar, ndot, ndotdot) changed in place after a first propagation - is a genuine failure of the current code (Witness sgp4_stale_after_drag_change, known finding C08-sgp4-stale-after-drag-term-change, proposed_fixes/C08-h-sgp4-drag-terms.diff); after that fix sameState becomes equality and the hypothesis disappears",
+        "ownPts / ownPtsBack (Ephem.iter without step) are proved equal to the code's loops by definition only; their characterisation as 'the tabulated dates within [start, stop]' for sorted points is proved for integration grids only (Lemmas/Iter.lean ownPts_grid, used by numerical_iter_dates_forward)",
+        "Ephem.iter with start or stop outside the tabulated span (strict: ValueError; strict=False: clamped, forward and backward): modelled and in the correspondence, no theorem",
+        "Dates given as a DateRange object (all three families; for KeplerNum also backward DateRanges): modelled and in the correspondence, no theorem"]
 RULE = ("correspondence: per propagator kind (sgp4, kepler, j2, none, num, cw, ephem) random keyword combinations of iter (start absent/None/before/at/after epoch, "
-        "stop date/timedelta/absent, step absent/None/positive/negative/zero, dates list / DateRange, strict) and random histories of <= 8 propagate/iter calls on two "
-        "orbits (every element different) sharing one propagator and two listeners (full, partial, zero consumption; start/stop/step, explicit dates and DateRange forms; "
-        "in-place modifications of the orbits between calls), the trace compared being dates, end kind, bound orbit, number of re-bindings, Listener.prev and WHOSE trajectory "
-        "(orbit object, number of modifications seen) the returned state lies on; non-trivial = >= 2 dates yielded resp. >= 2 calls; distinct = distinct request line. "
+        "stop date/timedelta/absent, step absent/None/positive/negative/zero, dates list (empty, unordered, repeated) / DateRange (both directions), strict, backward "
+        "ranges inside and outside an ephemeris span) and random histories of <= 8 propagate/iter calls on two "
+        "orbits (every element different) sharing one propagator and two listeners that fire on a date pattern (full, partial, zero consumption; start/stop/step, explicit "
+        "dates and DateRange forms; in-place modifications of the orbits between calls: their elements, for Sgp4 also their drag term B*), the trace compared being dates, end kind, bound orbit, number of re-bindings, "
+        "number of events, Listener.prev and WHOSE trajectory (orbit object, number of modifications seen) the returned state lies on; non-trivial = >= 2 dates yielded "
+        "resp. >= 2 calls; distinct = distinct request line. "
         "oracle: the contract list start + k*step on the real API for all 7 kinds both directions, yielded state == direct propagate from fresh objects, "
-        "explicit lists, histories vs fresh objects (bitwise), receiver snapshots")
+        "explicit lists, histories vs fresh objects (bitwise), receiver snapshots; first of all, on every seed, the directed histories of the findings this property "
+        "has had (propagate / modify / propagate, two orbits on one propagator, listeners re-used over explicit dates)")
 U = 125_000            # grid of the generated dates, in microseconds (0.125 s: exact in the float seconds of Date)
 FLIP = 700_000_000     # the correspondence's test listener changes sign every FLIP microseconds (Drv/C08.lean: flipPeriod)
 FLIP_OFFSET = 31_250   # ... at dates k*FLIP + FLIP_OFFSET, never on the 0.125 s grid of the generated dates (Drv/C08.lean: flipOffset)
@@ -143,11 +173,10 @@ class World:
         self.listeners = [NodeListener(), ApsideListener()]
         if silent_listeners:
             # test listeners for the correspondence: the watched quantity is a function of the DATE alone, it changes sign
-            # every FLIP microseconds (so the model knows between which consecutive dates an event is found), except for the
-            # numerical propagator where it never does (`_bisect` there needs an interpolable span: known finding)
+            # every FLIP microseconds (so the model knows between which consecutive dates an event is found)
             from beyond.propagators.listeners import Event
             e0 = self.e
-            flip = (kind != "num")
+            flip = True
 
             class Flip(Listener):
                 def info(self, orb):
@@ -201,10 +230,15 @@ class World:
     def date(self, us):
         return self.e + td(us)
 
-    def modify(self, idx):
-        """the user changes elements of an orbit object in place (size and phase of the orbit)"""
+    def modify(self, idx, meta=False):
+        """the user changes elements of an orbit object in place (size and phase of the orbit); meta: the drag term B*
+        (an attribute of the orbit next to its six coordinates; only Sgp4 uses it)"""
         o = self.orbits[idx]
-        if self.kind == "sgp4":          # TLE form: (i, Omega, e, omega, M, n)
+        if meta:
+            if self.kind != "sgp4":
+                raise ValueError("drag terms are modified for Sgp4 orbits only in this harness")
+            o.bstar = o.bstar * 1.5 + 2e-5
+        elif self.kind == "sgp4":        # TLE form: (i, Omega, e, omega, M, n)
             o[5] *= 1.0007
             o[4] += 0.25
         elif self.kind == "cw":
@@ -419,6 +453,12 @@ def gen_args(rng, kind, h, npts):
     if kind == "ephem" and rng.random() < 0.15 and "stop" in a and a["stop"] is not None:
         a["stop"] = total + rng.randrange(1, 4 * h // U) * U
         a["strict"] = rng.random() < 0.5
+    if kind == "ephem" and rng.random() < 0.12:
+        # backward range reaching out of the tabulated span on either side (Ephem._iter_backward: strict / clamped)
+        a.pop("stopdelta", None)
+        a["start"] = rng.choice([total + rng.randrange(1, 4 * h // U) * U, rng.randrange(0, total // U + 1) * U, -rng.randrange(1, 4 * h // U) * U])
+        a["stop"] = rng.choice([a["start"] - rng.randrange(1, 2 * total // U + 2) * U, -rng.randrange(1, 4 * h // U) * U])
+        a["strict"] = rng.random() < 0.5
     st = rng.random()
     if st < (0.7 if kind in ("num", "ephem") else 0.92):
         a["step"] = step
@@ -437,7 +477,7 @@ def real_iter_line(kind, h, npts, a, order):
 
 def enc_call(c):
     if c["op"] == "modify":
-        return f"M/{c['orb']}"
+        return f"{'B' if c.get('meta') else 'M'}/{c['orb']}"
     if c["op"] == "propagate":
         return f"P/{c['orb']}/{c['date']}"
     ls = c["args"].get("listeners") or []
@@ -473,10 +513,12 @@ def real_trace(kind, h, npts, calls):
     memo = {}
 
     def whose(state):
+        """every (orbit object, version) whose trajectory the state lies on (several when they coincide at that date)"""
         if kind == "ephem" or state is None:
             return "-"
         d = us_of(state.date, w.e)
         sc = np.array(state.copy(form="cartesian")) if kind != "cw" else np.array(state)
+        hits = []
         for j, vs in enumerate(vers):
             for k, v in enumerate(vs):
                 if (j, k, d) not in memo:
@@ -488,14 +530,14 @@ def real_trace(kind, h, npts, calls):
                 else:
                     same = np.array_equal(sc, ref)
                 if same:
-                    return f"{j}.{k}"
-        return "?"
+                    hits.append(f"{j}.{k}")
+        return "/".join(hits) if hits else "?"
 
     for c in calls:
         first = None
         w.n_events = 0
         if c["op"] == "modify":
-            w.modify(c["orb"])
+            w.modify(c["orb"], meta=bool(c.get("meta")))
             vers[c["orb"]].append(w.orbits[c["orb"]].copy())
             run = " done"
         elif c["op"] == "propagate":
@@ -523,12 +565,36 @@ def real_trace(kind, h, npts, calls):
     return " | ".join(outs)
 
 
+def same_trace(real, model):
+    """exact equality of the two traces, except that the implementation side names EVERY orbit version whose trajectory the
+    first returned state lies on (token v<obj>.<n>/<obj>.<n>/...) and the model names one: it has to be among them"""
+    if real == model:
+        return True
+    rc, mc = real.split(" | "), model.split(" | ")
+    if len(rc) != len(mc):
+        return False
+    for r, m in zip(rc, mc):
+        rt, mt = r.split(" "), m.split(" ")
+        if len(rt) != len(mt):
+            return False
+        for a, b in zip(rt, mt):
+            if a == b:
+                continue
+            if a.startswith("v") and b.startswith("v") and "/" in a and b[1:] in a[1:].split("/"):
+                continue
+            return False
+    return True
+
+
 def correspondence(ctx):
     out = Outcome()
     rng = ctx.rng
     order = order_of_source()
     cases = []
     for kind in KINDS:
+        # the histories of the findings this property has had, on every seed
+        for calls in directed_histories(kind, 60 * 8 * U, 12):
+            cases.append(("hist", kind, 60 * 8 * U, 12, calls, f"c08hist {kind} {CAP} {order} {60 * 8 * U} 12 2 " + " ".join(enc_call(c) for c in calls)))
         for _ in range(ctx.n(250, 6000)):
             h = rng.choice([60, 60, 30, 10]) * 8 * U
             npts = rng.choice([1, 3, 7, 8, 9, 12, 20]) if kind == "ephem" else 12
@@ -559,7 +625,7 @@ def correspondence(ctx):
             real = real_trace(kind, h, npts, x)
             out.count(key=line, nontrivial=len(x) > 1, kind=f"history-{kind}", calls=len(x))
             fam = f"model-history-{kind}"
-        if real != m:
+        if not (real == m if what == "iter" else same_trace(real, m)):
             out.fail(fam, "dates / error kind / binding trace differ between Model/Iter.lean and the code", {"line": line}, observed=real[:400], expected=m[:400])
         out.sample({"line": line[:200], "reply": m[:160]}, limit=4)
     return out
@@ -639,7 +705,7 @@ def check_iter(out, w, a, order, npts, states=True):
               divides="divides" if (stop - start) % abs(step) == 0 else "off-grid", start="at-epoch" if start == 0 else ("after" if start > 0 else "before"))
     pub = {k: v for k, v in a.items() if not k.startswith("_")}
     inp = {"check": "iter", "kind": kind, "h": w.h, "npts": npts, "args": pub}
-    if kind == "ephem" and npts < order and a.get("step") is not None and (stop >= start or (got, fin) == ([], "value-error")):
+    if kind == "ephem" and npts < order and a.get("step") is not None:
         # documented: Ephem.interpolate raises ValueError when the order of interpolation is insufficient
         if (got, fin) != ([], "value-error"):
             out.fail("ephem-iter-few-points-not-refused", "Ephem with fewer points than the interpolation order: resampling did not raise ValueError",
@@ -676,14 +742,18 @@ def gen_call(rng, kind, h, npts, n_orb, modify=True):
     ls = rng.choice([[], [], [0], [1], [0, 1]])
     r0 = rng.random()
     if modify and kind != "ephem" and r0 < 0.12:
+        if kind == "sgp4" and rng.random() < 0.4:
+            return {"op": "modify", "orb": idx, "meta": True}
         return {"op": "modify", "orb": idx}
     if r0 < 0.30:
-        # explicit list of dates (a DateRange for the numerical propagator, which takes nothing else), spread over an orbit
-        hi = (npts - 1) * h // U if kind == "ephem" else 90 * 60 * 8
+        # explicit list of dates spread over an orbit (numerical propagator: a few integration steps around the epoch; also as a
+        # DateRange object, forward and backward)
+        hi = (npts - 1) * h // U if kind == "ephem" else (6 * h // U if kind == "num" else 90 * 60 * 8)
         lo = 0 if kind == "ephem" else -hi
-        if kind == "num":
+        if kind == "num" and rng.random() < 0.5:
             s0 = rng.randrange(-4 * h // U, 4 * h // U) * U
-            a = {"range": [s0, s0 + rng.choice([7, 9, 12]) * h, h, True], "listeners": ls}
+            sg = rng.choice([1, 1, -1])
+            a = {"range": [s0, s0 + sg * rng.choice([2, 7, 9, 12]) * h, sg * rng.choice([h, h // 2, 3 * h // 4]), rng.random() < 0.7], "listeners": ls}
         else:
             a = {"dates": [rng.randrange(lo, hi + 1) * U for _ in range(rng.choice([1, 2, 3, 5]))], "listeners": ls}
         return {"op": "iter", "orb": idx, "args": a, "consume": rng.choice([CAP, CAP, 2])}
@@ -713,7 +783,7 @@ def gen_call(rng, kind, h, npts, n_orb, modify=True):
 def do_call(w, c):
     """-> canonical observable result of one call"""
     if c["op"] == "modify":
-        w.modify(c["orb"])
+        w.modify(c["orb"], meta=bool(c.get("meta")))
         return ("modified",)
     if c["op"] == "propagate":
         try:
@@ -731,11 +801,14 @@ def check_history(out, kind, h, npts, calls):
     snap = w.snapshot()
     inp = {"check": "history", "kind": kind, "h": h, "npts": npts, "calls": calls}
     res = None
+    first_yield = {}     # orbit -> index of the first earlier call on it that returned at least one state
     for i, c in enumerate(calls):
         res = do_call(w, c)
         if c["op"] == "modify":
             snap = w.snapshot()
             continue
+        if i < len(calls) - 1 and (res[0] == "ok" or (res[0] == "iter" and len(res[2]) > 0)):
+            first_yield.setdefault(c["orb"], i)
         if w.snapshot() != snap:
             out.fail(f"{kind}-receiver-modified-by-{c['op']}", "a propagate/iter call modified the orbit (or the ephemeris points) it was called on",
                      dict(inp, at=i))
@@ -747,7 +820,7 @@ def check_history(out, kind, h, npts, calls):
     f = World(kind, h=h, npts=npts)
     for c in calls[:-1]:
         if c["op"] == "modify":
-            f.modify(c["orb"])
+            f.modify(c["orb"], meta=bool(c.get("meta")))
     ref = do_call(f, last)
     out.count(key=(kind, repr(calls)), nontrivial=len(calls) > 1, kind="history-" + kind, calls=len(calls), last=last["op"])
     if res != ref:
@@ -758,12 +831,19 @@ def check_history(out, kind, h, npts, calls):
             "dates" if (res[0] == "iter" and main_dates(res) != main_dates(ref)) or (res[0] == "ok" and res[1] != ref[1]) else (
                 "events" if res[0] == "iter" and [e for e in res[4] if e] != [e for e in ref[4] if e] else "state"))
         # family: propagator kind, kind of the last call, what differs, and whether the receiver of the last call had been
-        # modified in place by the user earlier in the history (a binding that is not refreshed) or not (a shared object
-        # carrying state from call to call)
-        changed = any(c["op"] == "modify" and c["orb"] == last["orb"] for c in calls[:-1])
-        if changed and what == "events":
+        # modified in place by the user after a first call on it had returned a state (something derived from the orbit
+        # that is not refreshed; the LAST such modification being a change of its coordinates / of its drag term: a later
+        # change of the coordinates makes the current Sgp4 rebuild its record) or not (a shared object carrying state from
+        # call to call)
+        mods = [c for c in calls[first_yield.get(last["orb"], len(calls)) + 1:-1] if c["op"] == "modify" and c["orb"] == last["orb"]]
+        changed = bool(mods) and not mods[-1].get("meta")
+        drag = bool(mods) and bool(mods[-1].get("meta"))
+        if (changed or drag) and what == "events":
             what = "state"          # another trajectory has other events: one family with the states themselves
-        out.fail(f"{kind}-history-dependent-{what}-after-inplace-change" if changed else f"{kind}-history-dependent-{last['op']}-{what}",
+        fam = (f"{kind}-history-dependent-{what}-after-inplace-change" if changed else
+               f"{kind}-history-dependent-{what}-after-inplace-drag-term-change" if drag else
+               f"{kind}-history-dependent-{last['op']}-{what}")
+        out.fail(fam,
                  "the result of a call depends on earlier calls on the same objects",
                  inp, observed=_short(res), expected=_short(ref))
 
@@ -790,12 +870,42 @@ def check_dates_list(out, w, dates, npts, order):
                  {"check": "dates", "kind": w.kind, "h": w.h, "npts": npts, "dates": dates}, observed={"dates": got[:40], "end": fin}, expected={"dates": dates[:40], "end": "done"})
 
 
+def directed_histories(kind, h, npts):
+    """the histories of the findings this property has had (known_findings.d/C08.json), on every kind, run first on every seed"""
+    P = lambda o, d: {"op": "propagate", "orb": o, "date": d}                                    # noqa: E731
+    inside = (npts - 1) * h
+    d1, d2 = 3 * h + U, (2 * h if kind == "ephem" else -2 * h)
+    rng_args = {"start": 0, "stop": min(4 * h + U, inside), "step": h // 2 + U, "listeners": []}
+    out = []
+    if kind != "ephem":
+        out.append([P(0, d1), {"op": "modify", "orb": 0}, P(0, d2)])
+        out.append([P(0, d1), {"op": "modify", "orb": 0}, {"op": "iter", "orb": 0, "args": dict(rng_args), "consume": CAP}])
+        out.append([{"op": "iter", "orb": 0, "args": dict(rng_args), "consume": 2}, {"op": "modify", "orb": 0}, P(0, d2)])
+        out.append([P(0, d1), P(1, d2), P(0, d2)])
+        out.append([P(0, d1), {"op": "iter", "orb": 1, "args": dict(rng_args), "consume": 1}, P(0, d1)])
+    if kind == "sgp4":
+        out.append([P(0, d1), {"op": "modify", "orb": 0, "meta": True}, P(0, 30 * d1)])
+        out.append([P(0, d1), {"op": "modify", "orb": 0, "meta": True}, {"op": "iter", "orb": 0, "args": dict(rng_args, stop=40 * h), "consume": CAP}])
+    # the same listener objects over two successive iterations on explicit dates, a quarter / half / three quarters of a LEO
+    # revolution apart (the watched quantities have changed sign for at least one of them)
+    for q in ((3, 6, 9) if kind == "ephem" else (24, 48, 72)):
+        second = [min(q * h, inside), min(q * h + h, inside)] if kind == "ephem" else [q * h, q * h + h]
+        out.append([{"op": "iter", "orb": 0, "args": {"dates": [0, h], "listeners": [0, 1]}, "consume": CAP},
+                    {"op": "iter", "orb": 0, "args": {"dates": second, "listeners": [0, 1]}, "consume": CAP}])
+        out.append([{"op": "iter", "orb": 0, "args": {"start": 0, "stop": 2 * h, "step": h, "listeners": [0, 1]}, "consume": 2},
+                    {"op": "iter", "orb": 0, "args": {"dates": second, "listeners": [0, 1]}, "consume": CAP}])
+    return out
+
+
 def oracle(ctx, widened):
     out = Outcome()
     rng = ctx.rng
     big = widened or ctx.thorough
     order = order_of_source()
     n_iter = 1200 if big else 120
+    for kind in KINDS:
+        for calls in directed_histories(kind, 60 * 8 * U, 12):
+            check_history(out, kind, 60 * 8 * U, 12, calls)
     for kind in KINDS:
         for i in range(n_iter):
             h = rng.choice([60, 60, 30, 10]) * 8 * U
@@ -825,7 +935,7 @@ def oracle(ctx, widened):
                 ds = [rng.randrange(-hi, hi + 1) * U for _ in range(n)]
             check_dates_list(out, w, ds, npts, order)
         # call histories on shared objects
-        for i in range((600 if big else 60)):
+        for i in range((600 if big else 100)):
             h = 60 * 8 * U
             npts = rng.choice([9, 12])
             n_orb = 1 if kind == "ephem" else 2
